@@ -351,9 +351,20 @@ def _num(dev_id):
     return int(dev_id.split(":")[0]) if isinstance(dev_id, str) else dev_id
 
 
-def task(dev_id, raising=(), unpicklable=()):
+_attempts = {}
+
+
+def task(dev_id, raising=(), unpicklable=(), net=(), net_once=()):
     if _num(dev_id) in raising:
         raise ValueError("boom %s" % _num(dev_id))
+    if _num(dev_id) in net:
+        # a connection error on every attempt: after the retries the id is a FAILURE
+        raise ConnectionResetError("boom net %s" % _num(dev_id))
+    if _num(dev_id) in net_once:
+        # a connection error on the first attempt only: the retry succeeds
+        _attempts[_num(dev_id)] = _attempts.get(_num(dev_id), 0) + 1
+        if _attempts[_num(dev_id)] == 1:
+            raise BrokenPipeError("transient %s" % _num(dev_id))
     if _num(dev_id) in unpicklable:
         # a plain container that holds something that cannot cross the process boundary
         return ["text", (x for x in ())]
@@ -373,11 +384,14 @@ def run_schedule(n, pool, max_tasks, raising, tolerate, decisions, tail, via_run
     # big: ids the size of long file paths / texts (what file-diff submits), 40 KB each
     ids = ["%d:%s" % (i, "x" * 40000) for i in range(n)] if big else list(range(n))
     unp = tuple(_num(ids[0]) for _ in (1,) if "unp" in raising)
-    raising = [r for r in raising if r != "unp"]
+    net = tuple(_num(ids[0]) for _ in (1,) if "net" in raising)
+    net_once = tuple(_num(ids[0]) for _ in (1,) if "net1" in raising)
+    raising = [r for r in raising if r not in ("unp", "net", "net1")]
+    _attempts.clear()
     delivered = []
     raised = None
     try:
-        p = par.Parallel(task, raising=tuple(raising), unpicklable=unp).tune(parallel=pool, max_tasks=max_tasks)
+        p = par.Parallel(task, raising=tuple(raising), unpicklable=unp, net=net, net_once=net_once).tune(parallel=pool, max_tasks=max_tasks)
         try:
             if via_run:
                 ok_d, fail_d = p.run(ids, tolerate_fails=tolerate)
@@ -401,7 +415,7 @@ def run_schedule(n, pool, max_tasks, raising, tolerate, decisions, tail, via_run
         par.os = saved_os
         _sched.shutdown()
     workers_used = len(set(t.split(":")[0] for t in _sched.trace if t.endswith("want_put")))
-    bad_ids = set(raising) | set(unp)
+    bad_ids = set(raising) | set(unp) | set(net)
     want = sorted((i, None if i in bad_ids else i * 7 + 1, "exc" if i in bad_ids else None) for i in range(n))
     got = sorted(delivered, key=lambda x: (x[0], str(x[1])))
     detail = {"submitted": list(range(n)), "delivered": got, "order": list(delivered), "raised": raised, "trace": _sched.trace[-40:]}
@@ -422,7 +436,7 @@ NS = [2, 3] if rt.TIER == "quick" else [2, 3, 4]
 K = int(os.environ.get("VT_KDEC", "6" if rt.TIER == "quick" else "8"))
 POOL = int(os.environ.get("VT_POOL", "2"))
 MAXT = [1, 2, 25]
-RAISE = [(), (0,), ("last",), ("unp",)]
+RAISE = [(), (0,), ("last",), ("unp",), ("net",), ("net1",)]
 RAD = [POOL + 1] * K + [len(NS), len(MAXT), len(RAISE), 2, 2]
 NCASE = 1
 for _r in RAD:
